@@ -43,7 +43,12 @@ def hexs(s: str) -> str:
 
 
 def unhex(h: str) -> str:
-    return "" if h in ("-", "") else bytes.fromhex(h).decode("utf-8", "replace")
+    if h in ("-", ""):
+        return ""
+    try:
+        return bytes.fromhex(h).decode("utf-8", "replace")
+    except ValueError:
+        return h  # not hex: show as is
 
 
 class SplitMix64:
